@@ -179,6 +179,11 @@ pub mod twin_exec_instantiate {
                 continue
             if all(c == "U" for c in seq):
                 continue
+            # the first non-underscore character must be a letter: `_2` has no UpperCamel form (the macro panics with
+            # "`2` is not a valid identifier"); such names are outside every property's quantifier
+            first = next(c for c in seq if c != "U")
+            if first == "D":
+                continue
             # letters vary by position so that words differ: a, b, c ...
             s = ""
             li = 0
